@@ -118,6 +118,11 @@ def rule_r1(ctx) -> List[R.Inst]:
         insts.append(R.ok(rid, "pipeline:stages", file, rets[0].lineno, idiom=" -> ".join(want)))
     else:
         missing = [w for w in want if w not in core]
+        if len(missing) >= 4:
+            # not this pipeline with a stage lost, but another way of computing the active times: not read here
+            insts.append(R.undec(rid, "pipeline:stages", file, rets[0].lineno,
+                                 f"the active time per bpm is not computed by the concat / sort / diff pipeline (found only {core}): this form is not decided"))
+            return insts
         insts.append(R.viol(rid, "pipeline:stages", file, rets[0].lineno,
                             f"the definition 'total active time per bpm value, maximal' needs the stages {want} in this order; "
                             f"found {core}" + (f" (missing {missing})" if missing else " (order differs)"),
